@@ -467,7 +467,19 @@ void MEDDLY::ct_entry_type::removeAllCTEntriesWithForest(const forest* f)
         // Still here?
         // We have an operation cache that uses forest f.
         // Clear it.
-        all_entries[i]->CT->removeAll();
+        //
+        // If the entry type is waiting to be destroyed, removing its last
+        // entry would delete it, and with it the table we are clearing.
+        // Hold that off until removeAll() has returned.
+        //
+        ct_entry_type* et = all_entries[i];
+        const bool dwe = et->destroyWhenEmpty;
+        et->destroyWhenEmpty = false;
+        et->CT->removeAll();
+        if (dwe) {
+            et->destroyWhenEmpty = true;
+            if (0 == et->numEntries) delete et;
+        }
     }
 }
 
